@@ -40,7 +40,8 @@ type hCol struct {
 	Kind hKind
 	Type string
 	PK   bool
-	UID  int // identity of the column: assigned by CREATE TABLE / ADD COLUMN, kept by RENAME / MODIFY
+	Def  bool // declared with a DEFAULT
+	UID  int  // identity of the column: assigned by CREATE TABLE / ADD COLUMN, kept by RENAME / MODIFY
 }
 
 // hTable is the model of one table: columns in schema order and rows keyed by the joined
@@ -308,6 +309,7 @@ type hConfig struct {
 	NoTableDDL   bool // never drop / rename tables
 	NoSchema     bool // no schema changes after CREATE TABLE
 	DDLBoost     int  // multiplies the weight of schema / table operations (0 = 1)
+	RowBoost     bool // more row edits relative to schema operations
 	NoPKIndex    bool // never create a secondary index on a primary-key column
 	PKByName     bool // the primary key of a table is a function of its name (a re-created table has the same key columns) and key columns are never renamed
 }
@@ -629,6 +631,7 @@ func (h *hHist) addColumn() {
 		lit, wire := hGenValue(rt, h.label("addc.def"), ty.Kind)
 		def += " DEFAULT " + lit
 		fill = wire
+		col.Def = true
 	}
 	pos := len(t.Cols)
 	if h.cfg.ColPositions {
@@ -794,6 +797,9 @@ func (h *hHist) edit() {
 		b = 1
 	}
 	cs := []choice{{10, h.upsert}, {10, h.upsert}, {5, h.deleteRows}}
+	if h.cfg.RowBoost {
+		cs = append(cs, choice{15, h.upsert})
+	}
 	if len(h.freeTableNames()) > 0 {
 		cs = append(cs, choice{3, h.createTable})
 	}
